@@ -135,4 +135,336 @@ Section Proofs.
     - unfold scalar_mul_window, scalar_mul_window_be. rewrite rev_involutive. reflexivity.
     - apply Forall_rev. exact Hs.
   Qed.
+
+  (* ================================================================================== *)
+  (*  multi-scalar multiplication                                                          *)
+  (* ================================================================================== *)
+
+  Lemma add4 : forall a x b y, add (add a x) (add b y) = add (add a b) (add x y).
+  Proof.
+    intros. rewrite <- !add_assoc. f_equal. rewrite !add_assoc. f_equal. apply add_comm.
+  Qed.
+
+  Lemma nmul_2 : forall x, nmul 2 x = add x x.
+  Proof. intro x. change 2 with (1 + 1). rewrite nmul_add, nmul_1. reflexivity. Qed.
+
+  (* sum_i f(s_i) * P_i over the zipped lists *)
+  Definition wsumf (f : list N -> N) (ps : list G) (ss : list (list N)) : G :=
+    fold_right (fun pk acc => add (nmul (f (snd pk)) (fst pk)) acc) zero (combine ps ss).
+
+  Lemma wsumf_cons : forall f P ps s ss,
+    wsumf f (P :: ps) (s :: ss) = add (nmul (f s) P) (wsumf f ps ss).
+  Proof. reflexivity. Qed.
+
+  Lemma wsumf_nil_r : forall f ps, wsumf f ps [] = zero.
+  Proof. intros f [|P ps]; reflexivity. Qed.
+
+  Lemma wsumf_add : forall f g ps ss,
+    add (wsumf f ps ss) (wsumf g ps ss) = wsumf (fun s => f s + g s) ps ss.
+  Proof.
+    intros f g ps. induction ps as [|P ps IH]; intros [|s ss]; try (cbn; apply add_0_l).
+    rewrite !wsumf_cons, nmul_add, <- IH. apply add4.
+  Qed.
+
+  Lemma wsumf_scale : forall c f ps ss, nmul c (wsumf f ps ss) = wsumf (fun s => c * f s) ps ss.
+  Proof.
+    intros c f ps. induction ps as [|P ps IH]; intros [|s ss]; try (cbn; apply nmul_zero).
+    rewrite !wsumf_cons, nmul_add_distr, nmul_mul, IH. reflexivity.
+  Qed.
+
+  Lemma wsumf_ext : forall f g ps ss, (forall s, In s ss -> f s = g s) -> wsumf f ps ss = wsumf g ps ss.
+  Proof.
+    intros f g ps. induction ps as [|P ps IH]; intros [|s ss] H; try reflexivity.
+    rewrite !wsumf_cons, (H s (or_introl eq_refl)). f_equal. apply IH. intros s' Hs'. apply H. right. exact Hs'.
+  Qed.
+
+  Lemma wsumf_zero : forall f ps ss, (forall s, In s ss -> f s = 0) -> wsumf f ps ss = zero.
+  Proof.
+    intros f ps. induction ps as [|P ps IH]; intros [|s ss] H; try reflexivity.
+    rewrite wsumf_cons, (H s (or_introl eq_refl)), nmul_0, add_0_l. apply IH.
+    intros s' Hs'. apply H. right. exact Hs'.
+  Qed.
+
+  (* ---- the naive path (n <= 7) ------------------------------------------------------------ *)
+  Lemma msm_naive_acc : forall ps ss acc, Forall bytes_ok ss ->
+    fold_left (fun acc ps => add acc (scalar_mul_window zero add dbl (fst ps) (snd ps))) (combine ps ss) acc =
+    add acc (wsumf le_value ps ss).
+  Proof.
+    intros ps. induction ps as [|P ps IH]; intros [|s ss] acc Hss; try (cbn; symmetry; apply add_0_r).
+    cbn [combine fold_left fst snd]. inversion Hss as [|? ? Hs Hss']; subst.
+    rewrite IH by exact Hss'. rewrite scalar_mul_window_correct by exact Hs.
+    rewrite wsumf_cons. symmetry. apply add_assoc.
+  Qed.
+
+  Lemma msm_naive_correct : forall ps ss, Forall bytes_ok ss ->
+    msm_naive zero add dbl ps ss = wsumf le_value ps ss.
+  Proof. intros. unfold msm_naive. rewrite msm_naive_acc by assumption. apply add_0_l. Qed.
+
+  (* ---- acc := 2^w * acc ------------------------------------------------------------------------ *)
+  Lemma iter_double : forall n acc, iter_n n (fun x => add x x) acc = nmul (2 ^ N.of_nat n) acc.
+  Proof.
+    induction n as [|n IH]; intro acc.
+    - cbn. symmetry. apply nmul_1.
+    - cbn [iter_n]. rewrite IH, <- nmul_2, nmul_mul. f_equal.
+      rewrite Nat2N.inj_succ, N.pow_succ_r'. lia.
+  Qed.
+
+  (* ---- bits of the little-endian value ------------------------------------------------------- *)
+  Lemma le_value_lt : forall s, bytes_ok s -> le_value s < 2 ^ (8 * N.of_nat (length s)).
+  Proof.
+    intros s Hs. induction Hs as [|b r Hb Hr IH].
+    - cbn. lia.
+    - cbn [le_value length]. rewrite Nat2N.inj_succ.
+      replace (8 * N.succ (N.of_nat (length r))) with (8 + 8 * N.of_nat (length r)) by lia.
+      rewrite N.pow_add_r. change (2 ^ 8) with 256. nia.
+  Qed.
+
+  Lemma testbit_above : forall v n m, v < 2 ^ n -> n <= m -> N.testbit v m = false.
+  Proof.
+    intros v n m Hv Hnm. destruct (N.eq_dec v 0) as [->|Hv0]; [apply N.bits_0|].
+    apply N.bits_above_log2. apply N.log2_lt_pow2; [lia|].
+    apply N.lt_le_trans with (2 ^ n); [exact Hv|]. apply N.pow_le_mono_r; lia.
+  Qed.
+
+  Lemma div8_facts : forall i, 8 <= i -> (i - 8) / 8 = i / 8 - 1 /\ (i - 8) mod 8 = i mod 8 /\ 1 <= i / 8.
+  Proof.
+    intros i Hi. pose proof (N.div_mod i 8 ltac:(lia)). pose proof (N.mod_lt i 8 ltac:(lia)).
+    pose proof (N.div_mod (i - 8) 8 ltac:(lia)). pose proof (N.mod_lt (i - 8) 8 ltac:(lia)).
+    assert (i / 8 >= 1) by (apply N.le_ge, N.div_le_lower_bound; lia).
+    assert (E : (i - 8) / 8 = i / 8 - 1).
+    { symmetry. apply N.div_unique with (i mod 8); lia. }
+    repeat split; lia.
+  Qed.
+
+  Lemma testbit_le : forall s i, bytes_ok s ->
+    N.testbit (le_value s) i = N.testbit (nth (N.to_nat (i / 8)) s 0) (i mod 8).
+  Proof.
+    intros s i Hs. revert i. induction Hs as [|b r Hb Hr IH]; intro i.
+    - cbn [le_value]. rewrite N.bits_0. destruct (N.to_nat (i / 8)); cbn; reflexivity.
+    - cbn [le_value]. destruct (N.lt_ge_cases i 8) as [Hlt | Hge].
+      + rewrite (N.div_small i 8), (N.mod_small i 8) by exact Hlt. cbn [N.to_nat nth].
+        rewrite <- (N.mod_pow2_bits_low (b + 256 * le_value r) 8 i) by exact Hlt.
+        change (2 ^ 8) with 256. rewrite N.mul_comm, N.mod_add by lia. rewrite N.mod_small by exact Hb. reflexivity.
+      + destruct (div8_facts i Hge) as (E1 & E2 & E3).
+        replace i with (i - 8 + 8) at 1 by lia. rewrite <- N.div_pow2_bits.
+        change (2 ^ 8) with 256. rewrite N.mul_comm, N.div_add by lia. rewrite N.div_small by exact Hb.
+        rewrite N.add_0_l, IH, E1, E2.
+        replace (N.to_nat (i / 8)) with (S (N.to_nat (i / 8 - 1))) by lia. reflexivity.
+  Qed.
+
+  (* ---- getWindow = ((value >> start) mod 2^w) --------------------------------------------------- *)
+  Lemma bit_extract : forall byte r n, N.testbit (N.land (N.shiftr byte r) 1) n = N.testbit byte r && (n =? 0).
+  Proof.
+    intros byte r n. rewrite N.land_spec, N.shiftr_spec by lia. change 1 with (N.ones 1).
+    destruct (N.eqb_spec n 0) as [->|Hn].
+    - rewrite N.ones_spec_low by lia. rewrite N.add_0_l. reflexivity.
+    - rewrite N.ones_spec_high by lia. rewrite !andb_false_r. reflexivity.
+  Qed.
+
+  Lemma get_window_aux_bits : forall s start, bytes_ok s -> forall w k j,
+    N.testbit (get_window_aux s start k w) j =
+    (N.of_nat k <=? j) && (j <? N.of_nat (k + w)) && N.testbit (le_value s) (start + j).
+  Proof.
+    intros s start Hs. induction w as [|w IH]; intros k j.
+    - cbn [get_window_aux]. rewrite N.bits_0. replace (k + 0)%nat with k by lia.
+      destruct (N.leb_spec (N.of_nat k) j); destruct (N.ltb_spec j (N.of_nat k)); cbn; try reflexivity; lia.
+    - cbn [get_window_aux]. cbv zeta.
+      destruct (N.leb_spec (N.of_nat (length s)) ((start + N.of_nat k) / 8)) as [Hout | Hin].
+      + rewrite N.bits_0.
+        destruct (N.leb_spec (N.of_nat k) j) as [Hkj|]; [|reflexivity].
+        rewrite (testbit_above (le_value s) (8 * N.of_nat (length s)) (start + j) (le_value_lt s Hs)).
+        * symmetry. apply andb_false_r.
+        * pose proof (N.div_mod (start + N.of_nat k) 8 ltac:(lia)).
+          pose proof (N.mod_lt (start + N.of_nat k) 8 ltac:(lia)). nia.
+      + rewrite N.lor_spec, IH.
+        destruct (N.ltb_spec j (N.of_nat k)) as [Hjk | Hjk].
+        * (* j < k *)
+          rewrite N.shiftl_spec_low by exact Hjk.
+          destruct (N.leb_spec (N.of_nat k) j); [lia|]. destruct (N.leb_spec (N.of_nat (S k)) j); [lia|]. reflexivity.
+        * rewrite N.shiftl_spec_high by lia. rewrite bit_extract.
+          rewrite <- (testbit_le s (start + N.of_nat k) Hs).
+          destruct (N.leb_spec (N.of_nat k) j); [|lia]. cbn [andb].
+          destruct (N.eqb_spec (j - N.of_nat k) 0) as [E0 | E0].
+          -- assert (j = N.of_nat k) by lia. subst j.
+             destruct (N.leb_spec (N.of_nat (S k)) (N.of_nat k)); [lia|]. cbn [andb]. rewrite orb_false_r, andb_true_r.
+             destruct (N.ltb_spec (N.of_nat k) (N.of_nat (k + S w))); [|lia]. reflexivity.
+          -- rewrite andb_false_r. cbn [orb].
+             destruct (N.leb_spec (N.of_nat (S k)) j); [|lia].
+             replace (S k + w)%nat with (k + S w)%nat by lia. reflexivity.
+  Qed.
+
+  Lemma get_window_spec : forall s start w, bytes_ok s ->
+    get_window s start w = (le_value s / 2 ^ start) mod 2 ^ w.
+  Proof.
+    intros s start w Hs. destruct s as [|b r].
+    - unfold get_window. cbn [le_value]. rewrite N.div_0_l by (apply N.pow_nonzero; lia). symmetry. apply N.mod_0_l. apply N.pow_nonzero; lia.
+    - unfold get_window. apply N.bits_inj. intro j. rewrite get_window_aux_bits by exact Hs.
+      cbn [N.of_nat plus]. rewrite N2Nat.id. destruct (N.ltb_spec j w) as [Hlt | Hge].
+      + rewrite N.mod_pow2_bits_low by exact Hlt. rewrite N.div_pow2_bits.
+        destruct (N.leb_spec 0 j); [|lia]. cbn [andb]. f_equal. lia.
+      + rewrite N.mod_pow2_bits_high by exact Hge. rewrite andb_false_r. reflexivity.
+  Qed.
+
+  Lemma get_window_lt : forall s start w, bytes_ok s -> get_window s start w < 2 ^ w.
+  Proof. intros. rewrite get_window_spec by assumption. apply N.mod_lt. apply N.pow_nonzero. lia. Qed.
+
+  (* ---- buckets ---------------------------------------------------------------------------------------- *)
+  Lemma update_nth_length : forall A (f : A -> A) l i, length (update_nth i f l) = length l.
+  Proof. intros A f l. induction l as [|x l IH]; intros [|i]; cbn; try reflexivity; f_equal; apply IH. Qed.
+
+  Lemma update_nth_same : forall A (f : A -> A) (d : A) l i, (i < length l)%nat ->
+    nth i (update_nth i f l) d = f (nth i l d).
+  Proof.
+    intros A f d l. induction l as [|x l IH]; intros [|i] Hi; cbn in *; try lia; try reflexivity.
+    apply IH. lia.
+  Qed.
+
+  Lemma update_nth_other : forall A (f : A -> A) (d : A) l i j, i <> j ->
+    nth j (update_nth i f l) d = nth j l d.
+  Proof.
+    intros A f d l. induction l as [|x l IH]; intros [|i] [|j] Hij; cbn; try reflexivity; try lia.
+    apply IH. lia.
+  Qed.
+
+  Definition ind (start w j : N) (s : list N) : N := if get_window s start w =? j then 1 else 0.
+
+  Lemma fill_buckets_spec : forall start w ps ss bs, Forall bytes_ok ss ->
+    2 ^ w <= N.of_nat (length bs) ->
+    length (fill_buckets add bs ps ss start w) = length bs /\
+    forall j, (1 <= j < length bs)%nat ->
+      nth j (fill_buckets add bs ps ss start w) zero = add (nth j bs zero) (wsumf (ind start w (N.of_nat j)) ps ss).
+  Proof.
+    intros start w ps. induction ps as [|P ps IH]; intros ss bs Hss Hlen.
+    - cbn. split; [reflexivity|]. intros. symmetry. apply add_0_r.
+    - destruct ss as [|s ss].
+      + cbn. split; [reflexivity|]. intros. symmetry. apply add_0_r.
+      + inversion Hss as [|? ? Hs Hss']; subst. cbn [fill_buckets]. cbv zeta.
+        pose proof (get_window_lt s start w Hs) as Hwin.
+        destruct (N.eqb_spec (get_window s start w) 0) as [E0 | E0].
+        * destruct (IH ss bs Hss' Hlen) as [HL HN]. split; [exact HL|]. intros j Hj.
+          rewrite HN by exact Hj. rewrite wsumf_cons. unfold ind at 2. rewrite E0.
+          destruct (N.eqb_spec 0 (N.of_nat j)); [lia|]. rewrite nmul_0, add_0_l. reflexivity.
+        * set (bs' := update_nth (N.to_nat (get_window s start w)) (fun b => add b P) bs).
+          assert (HL' : length bs' = length bs) by apply update_nth_length.
+          destruct (IH ss bs' Hss' ltac:(rewrite HL'; exact Hlen)) as [HL HN]. split; [rewrite HL; exact HL'|].
+          intros j Hj. rewrite HN by (rewrite HL'; exact Hj). rewrite wsumf_cons. unfold ind at 2.
+          destruct (N.eqb_spec (get_window s start w) (N.of_nat j)) as [Ej | Ej].
+          -- subst bs'. rewrite Ej, Nat2N.id. rewrite update_nth_same by lia.
+             rewrite nmul_1. symmetry. apply add_assoc.
+          -- subst bs'. rewrite update_nth_other by lia. rewrite nmul_0, add_0_l. reflexivity.
+  Qed.
+
+  Lemma nth_repeat_zero : forall n j, nth j (repeat zero n) zero = zero.
+  Proof. induction n as [|n IH]; intros [|j]; cbn; try reflexivity. apply IH. Qed.
+
+  (* ---- the running-sum trick: sum_k k * bucket_k with ~2^w additions ---------------------------- *)
+  Lemma running_sum_spec : forall (winf : list N -> N) ps ss buckets,
+    (forall j, (1 <= j < length buckets)%nat ->
+       nth j buckets zero = wsumf (fun s => if winf s =? N.of_nat j then 1 else 0) ps ss) ->
+    forall k run acc, (k < length buckets)%nat ->
+      run = wsumf (fun s => if N.of_nat k <? winf s then 1 else 0) ps ss ->
+      running_sum zero add is_zero buckets k run acc =
+      add acc (wsumf (fun s => N.min (winf s) (N.of_nat k)) ps ss).
+  Proof.
+    intros winf ps ss buckets HB. induction k as [|k IH]; intros run acc Hk Hrun.
+    - cbn [running_sum]. rewrite wsumf_zero; [symmetry; apply add_0_r|]. intros. lia.
+    - cbn [running_sum]. cbv zeta.
+      assert (Hrun' : (if is_zero (nth (S k) buckets zero) then run else add run (nth (S k) buckets zero)) =
+                      wsumf (fun s => if N.of_nat k <? winf s then 1 else 0) ps ss).
+      { assert (E : add run (nth (S k) buckets zero) = wsumf (fun s => if N.of_nat k <? winf s then 1 else 0) ps ss).
+        { rewrite HB by lia. rewrite Hrun, wsumf_add. apply wsumf_ext. intros s _.
+          destruct (N.ltb_spec (N.of_nat (S k)) (winf s)); destruct (N.eqb_spec (winf s) (N.of_nat (S k)));
+            destruct (N.ltb_spec (N.of_nat k) (winf s)); lia. }
+        destruct (is_zero (nth (S k) buckets zero)) eqn:Ez; [|exact E].
+        apply is_zero_spec in Ez. rewrite Ez, add_0_r in E. exact E. }
+      rewrite (IH _ _ ltac:(lia) Hrun'). rewrite Hrun'. rewrite <- add_assoc, wsumf_add. f_equal.
+      apply wsumf_ext. intros s _. destruct (N.ltb_spec (N.of_nat k) (winf s)); lia.
+  Qed.
+
+  (* ---- one window round: acc := 2^w acc + sum_i window_i * P_i --------------------------------------- *)
+  Lemma window_round_spec : forall ps ss w acc wIdx, Forall bytes_ok ss -> 0 < w ->
+    window_round zero add is_zero ps ss w acc wIdx =
+    add (nmul (2 ^ w) acc) (wsumf (fun s => get_window s (wIdx * w) w) ps ss).
+  Proof.
+    intros ps ss w acc wIdx Hss Hw. unfold window_round. cbv zeta.
+    rewrite iter_double, N2Nat.id.
+    set (m := N.to_nat (2 ^ w)).
+    assert (Hm : (1 <= m)%nat) by (subst m; pose proof (N.pow_nonzero 2 w ltac:(lia)); lia).
+    destruct (fill_buckets_spec (wIdx * w) w ps ss (repeat zero m) Hss
+                ltac:(rewrite repeat_length; subst m; lia)) as [HL HN].
+    rewrite repeat_length in HL, HN.
+    rewrite (running_sum_spec (fun s => get_window s (wIdx * w) w) ps ss).
+    - f_equal. apply wsumf_ext. intros s Hs.
+      pose proof (get_window_lt s (wIdx * w) w (proj1 (Forall_forall _ _) Hss s Hs)). subst m. lia.
+    - intros j Hj. rewrite HL in Hj. rewrite HN by exact Hj. rewrite nth_repeat_zero, add_0_l. reflexivity.
+    - rewrite HL. lia.
+    - symmetry. apply wsumf_zero. intros s Hs.
+      pose proof (get_window_lt s (wIdx * w) w (proj1 (Forall_forall _ _) Hss s Hs)).
+      destruct (N.ltb_spec (N.of_nat (m - 1)) (get_window s (wIdx * w) w)); [subst m; lia | reflexivity].
+  Qed.
+
+  (* ---- all rounds: Horner evaluation in base 2^w ------------------------------------------------------ *)
+  Lemma rounds_spec : forall ps ss w, Forall bytes_ok ss -> 0 < w -> forall t acc,
+    acc = wsumf (fun s => le_value s / 2 ^ (N.of_nat t * w)) ps ss ->
+    fold_left (window_round zero add is_zero ps ss w) (down_from t) acc = wsumf le_value ps ss.
+  Proof.
+    intros ps ss w Hss Hw. induction t as [|t IH]; intros acc Hacc.
+    - cbn [down_from fold_left]. rewrite Hacc. apply wsumf_ext. intros s _.
+      cbn. rewrite N.div_1_r. reflexivity.
+    - cbn [down_from fold_left]. apply IH. rewrite window_round_spec by assumption.
+      rewrite Hacc, wsumf_scale, wsumf_add. apply wsumf_ext. intros s Hs.
+      rewrite get_window_spec by (apply (proj1 (Forall_forall _ _) Hss s Hs)).
+      set (v := le_value s / 2 ^ (N.of_nat t * w)).
+      replace (le_value s / 2 ^ (N.of_nat (S t) * w)) with (v / 2 ^ w).
+      + pose proof (N.div_mod v (2 ^ w) ltac:(apply N.pow_nonzero; lia)). lia.
+      + subst v. rewrite N.div_div by (apply N.pow_nonzero; lia). rewrite <- N.pow_add_r. f_equal. f_equal. lia.
+  Qed.
+
+  Lemma max_bits_ge_acc : forall (ss : list (list N)) m s, In s ss ->
+    8 * N.of_nat (length s) <= fold_left (fun m s => N.max m (8 * N.of_nat (length s))) ss m.
+  Proof.
+    induction ss as [|x ss IH]; intros m s Hin; [destruct Hin|].
+    cbn [fold_left]. destruct Hin as [-> | Hin].
+    - clear IH. generalize (N.max m (8 * N.of_nat (length s))) (N.le_max_r m (8 * N.of_nat (length s))).
+      induction ss as [|y ss IH2]; intros m' Hm'; cbn [fold_left]; [exact Hm'|]. apply IH2. lia.
+    - apply IH. exact Hin.
+  Qed.
+
+  Lemma max_bits_ge : forall (ss : list (list N)) s, In s ss -> 8 * N.of_nat (length s) <= max_bits ss.
+  Proof. intros. unfold max_bits. apply max_bits_ge_acc. assumption. Qed.
+
+  Lemma window_bits_pos : forall n, 0 < window_bits n.
+  Proof.
+    intro n. unfold window_bits. destruct (N.ltb_spec (bits_len n) 2); [lia|].
+    destruct (N.ltb_spec 16 (bits_len n)); lia.
+  Qed.
+
+  Lemma msm_buckets_correct : forall ps ss w, Forall bytes_ok ss -> 0 < w ->
+    msm_buckets zero add is_zero ps ss w = wsumf le_value ps ss.
+  Proof.
+    intros ps ss w Hss Hw. unfold msm_buckets. cbv zeta. apply rounds_spec; try assumption.
+    symmetry. apply wsumf_zero. intros s Hs. rewrite N2Nat.id. apply N.div_small.
+    apply N.lt_le_trans with (2 ^ (8 * N.of_nat (length s))).
+    - apply le_value_lt. apply (proj1 (Forall_forall _ _) Hss s Hs).
+    - apply N.pow_le_mono_r; [lia|]. pose proof (max_bits_ge ss s Hs) as Hmb.
+      set (mb := max_bits ss) in *.
+      pose proof (N.div_mod (mb + w - 1) w ltac:(lia)). pose proof (N.mod_lt (mb + w - 1) w ltac:(lia)). nia.
+  Qed.
+
+  (* MultiScalarMulLowLevel: sum_i n_i * P_i for every vector length (0 included: the identity);
+     None (the code panics) exactly on a length mismatch *)
+  Theorem msm_correct : forall (ps : list G) (ss : list (list N)), Forall bytes_ok ss ->
+    msm zero add dbl is_zero ps ss =
+    if Nat.eqb (length ps) (length ss) then Some (wsumf le_value ps ss) else None.
+  Proof.
+    intros ps ss Hss. unfold msm. cbv zeta. destruct (Nat.eqb (length ps) (length ss)) eqn:El; [|reflexivity].
+    cbn [negb]. destruct (Nat.eqb (length ps) 0) eqn:E0.
+    - apply Nat.eqb_eq in E0. destruct ps; [|discriminate]. reflexivity.
+    - destruct (Nat.leb (length ps) 7) eqn:E7.
+      + rewrite msm_naive_correct by exact Hss. reflexivity.
+      + destruct (N.eqb_spec (max_bits ss) 0) as [Emb | Emb].
+        * f_equal. symmetry. apply wsumf_zero. intros s Hs. pose proof (max_bits_ge ss s Hs).
+          destruct s; [reflexivity | cbn [length] in *; lia].
+        * f_equal. apply (msm_buckets_correct ps ss (window_bits (N.of_nat (length ps))) Hss (window_bits_pos _)).
+  Qed.
 End Proofs.
